@@ -364,6 +364,10 @@ func TestC13(t *testing.T) {
 			for i := 0; i < nRandom; i++ {
 				ids := []string{"_IK_p_svc_prod", "_SK_svc_prod", "_IK_üñí_s_p_us-west-2", "k"}
 				stamps := []int64{0, 1, 1700000000, 1700000060, 1700003600, 1 << 33, rng.Int63n(1 << 40)}
+				if i%4 == 3 {
+					// creation times before the Unix epoch only (the table orders them like any other integer)
+					stamps = []int64{-1700000000, -86400, -61, -1}
+				}
 				ops := make([]mop, 30)
 				for j := range ops {
 					id := ids[rng.Intn(len(ids))]
